@@ -36,7 +36,7 @@ func init() {
 		NotDecided: []string{"that string offsets/lengths are in range for every input (depends on the string kernels)"},
 		Assumptions: []string{},
 		Exhaustive: true,
-		Quick:      []string{"C17.pair", "C17.masks", "C14.writers", "C02.map"},
+		Quick:      []string{"C17.pair", "C17.masks", "C14.writers", "C02.map", "C11.codec"},
 	})
 	regProp(&PropInfo{ID: "C05",
 		Decides:    "Channel hand-off cannot deadlock or leak for any input size: exactly one terminator sent last on every stage-1 path; it is consumed exactly once on every failure path of both branches (blocking drain only while it is outstanding); goroutine joined before return; worst-case number of sends on the synchronous path fits the channel; index-buffer slack covers the unchecked tail call; tail processed from a padded copy; NOP-skipping loops make progress.",
@@ -79,5 +79,12 @@ func init() {
 		Assumptions: []string{},
 		Exhaustive: true,
 		Quick:      []string{"C04.buf", "C04.needcopy", "C15.reset"},
+	})
+	regProp(&PropInfo{ID: "C11",
+		Decides:    "Writer/reader agreement of the wire format, extracted independently from the two tag switches: per tag, value bytes written == required == consumed, tape words skipped == produced, tag byte written == matched (wire-only 'e' exactly for flagged floats, full word preserved), relative offsets taken and restored against the tag's own index (also directly after a flushed NOP run), NOP runs rebuilt with payload end−index; raw-size counters equal the bytes written to each block.",
+		NotDecided: []string{"S2/zstd fidelity", "hash-collision behaviour of the string table beyond the bytes.Equal check", "header field order and block framing until C11.header/C11.block are built", "noasm build matrix"},
+		Assumptions: []string{"klauspost/compress round-trips blocks"},
+		Exhaustive: true,
+		Quick:      []string{"C11.codec", "C11.counts", "C14.writers", "C02.map"},
 	})
 }
